@@ -895,7 +895,7 @@ class Schema(utils.Formattable, utils.JSONConvertible):
 
   def __init__(
       self,
-      fields: List[Field],
+      fields: Optional[List[Field]] = None,
       name: Optional[str] = None,
       base_schema_list: Optional[List['Schema']] = None,
       description: Optional[str] = None,
@@ -927,6 +927,9 @@ class Schema(utils.Formattable, utils.JSONConvertible):
         It could be an unsupported value type, default value doesn't conform
         with value specification, etc.
     """
+    if fields is None:
+      # NOTE: `to_json` omits an empty field list.
+      fields = []
     if not isinstance(fields, list):
       raise TypeError(
           f"Argument 'fields' must be a list. Encountered: {fields}."
